@@ -78,3 +78,14 @@ package art
 //@   modifies Iterator.apos of it
 //@   ensures result == nil ==> it.apos == old(it.apos) + 1
 //@   ensures result != nil ==> it.apos == old(it.apos)
+//@ spec func aHasValue(it *Iterator, i int) bool
+//@ spec func aValue(it *Iterator, i int) []byte
+//@ func (*Iterator) HasValue
+//@   trusted
+//@   modifies nothing
+//@   ensures result == aHasValue(it, it.apos)
+//@ func (*Iterator) Value
+//@   trusted
+//@   bytes: key
+//@   modifies nothing
+//@   ensures result == aValue(it, it.apos)
